@@ -89,21 +89,21 @@ def mapsSameOld : Nat → List (String × J) → List (String × J) → Bool
       | _ => true                          -- arrays (and scalars) were skipped
 
 /-- the law compaction is used for: undefined members are dropped at every depth -/
-def dropUndef : Nat → J → J
+def dropUndef (d : String → Bool) : Nat → J → J
   | 0, j => j
-  | f + 1, .obj kvs => .obj ((kvs.filter fun (k, _) => k == "@context" || defined k).map fun (k, v) =>
-      (k, if k == "@context" then v else dropUndef f v))
-  | f + 1, .arr l => .arr (l.map (dropUndef f))
+  | f + 1, .obj kvs => .obj ((kvs.filter fun (k, _) => k == "@context" || d k).map fun (k, v) =>
+      (k, if k == "@context" then v else dropUndef d f v))
+  | f + 1, .arr l => .arr (l.map (dropUndef d f))
   | _, j => j
 
 /-- strict validation of a document -/
-def strictOk (doc : J) : Bool :=
-  match doc, dropUndef 32 doc with
+def strictOk (d : String → Bool) (doc : J) : Bool :=
+  match doc, dropUndef d 32 doc with
   | .obj o, .obj c => mapsSame 32 o c
   | _, _ => true
 
-def strictOkOld (doc : J) : Bool :=
-  match doc, dropUndef 32 doc with
+def strictOkOld (d : String → Bool) (doc : J) : Bool :=
+  match doc, dropUndef d 32 doc with
   | .obj o, .obj c => mapsSameOld 32 o c
   | _, _ => true
 
